@@ -556,6 +556,83 @@ func ruleErrChain(c *Ctx) {
 			}
 		}
 
+		// ---- EnsurePathExistsOnAdd: an existing location on the path that is not a container ----
+		if ep := b.roleFn("ensurePathExists"); ep != nil && b.Name == "v5" {
+			ei := errResultIndex(ep)
+			n := 0
+			for _, r := range liveReturns(ep) {
+				if ei < 0 {
+					break
+				}
+				v := retVal(r, ei)
+				// does the error come from turning a looked-up node into a container?
+				from := ""
+				var walk func(x ssa.Value, d int)
+				seen := map[ssa.Value]bool{}
+				walk = func(x ssa.Value, d int) {
+					if x == nil || seen[x] || d > 6 {
+						return
+					}
+					seen[x] = true
+					switch y := x.(type) {
+					case *ssa.Phi:
+						for _, e := range y.Edges {
+							walk(e, d+1)
+						}
+					case *ssa.Extract:
+						if call, ok := y.Tuple.(*ssa.Call); ok {
+							f := call.Call.StaticCallee()
+							if f != nil && f.Signature.Recv() != nil && isPtrToNamed(f.Signature.Recv().Type(), "lazyNode") && f.Signature.Results().Len() == 2 {
+								if ex, ok := call.Call.Args[0].(*ssa.Extract); ok {
+									if c2, ok := ex.Tuple.(*ssa.Call); ok && isContainerInvoke(&c2.Call, "get") {
+										from = fname(f)
+									}
+								}
+							}
+						}
+					case *ssa.Call:
+						for _, a := range y.Call.Args {
+							walk(a, d+1)
+						}
+					case *ssa.MakeInterface:
+						walk(y.X, d+1)
+					case *ssa.UnOp:
+						if al, ok := y.X.(*ssa.Alloc); ok {
+							for _, ref := range *al.Referrers() {
+								if st, ok := ref.(*ssa.Store); ok && st.Addr == ssa.Value(al) {
+									walk(st.Val, d+1)
+								}
+							}
+						}
+					case *ssa.Slice:
+						walk(y.X, d+1)
+					case *ssa.Alloc:
+						for _, ref := range *y.Referrers() {
+							if ia, ok := ref.(*ssa.IndexAddr); ok {
+								for _, r2 := range *ia.Referrers() {
+									if st, ok := r2.(*ssa.Store); ok {
+										walk(st.Val, d+1)
+									}
+								}
+							}
+						}
+					}
+				}
+				walk(v, 0)
+				if from == "" {
+					continue
+				}
+				n++
+				key := fmt.Sprintf("MISSING-parent: ensurePathExists, existing non-container on the path (#%d) -> ErrMissing", n)
+				ch := a.chain(v, map[ssa.Value]bool{})
+				if ch["S:ErrMissing"] {
+					l.add("R-ERRCHAIN", b.Name, key, b.posOf(r), Discharged, "the failure of "+from+" on the looked-up node is reported with ErrMissing in its chain: "+ch.String(), true)
+				} else {
+					l.add("R-ERRCHAIN", b.Name, key, b.posOf(r), Violated, "an existing scalar (or null) on the path makes "+from+" fail and its error is returned as it is, chain "+ch.String()+": with EnsurePathExistsOnAdd an add below a scalar fails without ErrMissing, although the same add without the option reports the unreachable parent as ErrMissing", true)
+				}
+			}
+		}
+
 		// ---- the tolerance of test for an absent location is for object members only --
 		if pdGet, paGet := b.method(b.Lib, "partialDoc", "get"), b.method(b.Lib, "partialArray", "get"); pdGet != nil && paGet != nil && a.sum[pdGet]["S:ErrMissing"] {
 			key := "TEST-ABSENT: (*partialArray).get never reports an index outside the array as ErrMissing"
